@@ -107,6 +107,59 @@ def gen_compound(rng):
     return e, ("quant", q, dims)
 
 
+def gen_compound_pair(rng):
+    """an operation between two compound quantities whose factors are pairwise convertible in position (in*in vs cm*cm,
+    px/ms vs px/s) or not: the result must be the correctly converted quantity / truth value, or an error (convertibility
+    of compound units is not demanded) -- never a number computed on the raw magnitudes"""
+    nn, nd = rng.choice([(2, 0), (1, 1), (2, 1), (1, 2), (3, 0)])
+    sides = [[], []], [[], []]       # (numerators, denominators) of A and of B
+    for pos in range(nn + nd):
+        c = rng.choice(CLASSES)
+        ua = rng.choice(list(c))
+        ub = rng.choice(list(c)) if rng.chance(0.85) else rng.choice(UNITS)
+        if rng.chance(0.15):
+            ub = ua
+        k = 0 if pos < nn else 1
+        sides[0][k].append(ua)
+        sides[1][k].append(ub)
+    if rng.chance(0.15):
+        rng.shuffle(sides[1][0])      # the same factors in another order
+    xs = [rng.choice([1.0, 2.0, 3.0, 0.5, 5.0]), rng.choice([1.0, 2.0, 4.0, 0.25, 7.0])]
+    texts, qs = [], []
+    for (nu, du), x in zip(sides, xs):
+        t = " * ".join([lit(x, nu[0])] + [lit(1, u) for u in nu[1:]])
+        for u in du:
+            t = "math.div(%s, %s)" % (t, lit(1, u))
+        texts.append("(%s)" % t)
+        qs.append(quantity(x, nu, du))
+    (qa, da), (qb, db) = qs
+    if not da or not db:
+        return None       # a side whose units cancel completely is unitless: the unitless rules apply, not these
+    op = rng.choice(["+", "-", "<", "<=", ">", ">=", "==", "!=", "min", "max"])
+    A, B = texts
+    same = da == db
+    apart = abs(qa - qb) > 1e-6 * max(abs(qa), abs(qb))
+    if op in ("+", "-"):
+        e = "%s %s %s" % (A, op, B)
+        r = qa + qb if op == "+" else qa - qb
+        if same and abs(r) < 1e-6 * max(abs(qa), abs(qb)):
+            return None
+        return e, (("err-or", ("quant", r, da)) if same else ("err",))
+    if op in ("<", "<=", ">", ">="):
+        e = "%s %s %s" % (A, op, B)
+        if same and not apart:
+            return None
+        return e, (("err-or", ("bool", {"<": qa < qb, "<=": qa <= qb, ">": qa > qb, ">=": qa >= qb}[op])) if same else ("err",))
+    if op in ("==", "!="):
+        if same and not apart:
+            return None
+        return "%s %s %s" % (A, op, B), ("bool", op == "!=")
+    e = "math.%s(%s, %s)" % (op, A, B)
+    if same and not apart:
+        return None
+    return e, (("err-or", ("quant", min(qa, qb) if op == "min" else max(qa, qb), da)) if same else ("err",))
+
+
 def gen_nary_extremum(rng):
     """math.min / math.max (also through a splat) over 3-5 numbers of one dimension class in mixed units: the result must
     be one of the operands, unchanged, and extremal as a quantity"""
@@ -206,6 +259,8 @@ def check(sh, e, exp, got):
     kind = got[0]
     if exp[0] == "err":
         return None if kind == "err" else "expected an error (inconvertible units), got %s" % (got,)
+    if exp[0] == "err-or":
+        return None if kind == "err" else check(sh, e, exp[1], got)
     if kind != "ok":
         return "expected a value, got %s" % (got,)
     d = got[1]
@@ -257,8 +312,8 @@ OPS = ["+", "-", "<", "==", "%", "min", "max", "div", "*", "compatible"]
 
 def run_set(sh, cases):
     """cases: list of (expr_text, expectation)"""
-    ok_cases = [c for c in cases if c[1][0] != "err"]
-    err_cases = [c for c in cases if c[1][0] == "err"]
+    ok_cases = [c for c in cases if c[1][0] not in ("err", "err-or")]
+    err_cases = [c for c in cases if c[1][0] in ("err", "err-or")]
     for base in range(0, len(ok_cases), 300):
         chunk = ok_cases[base:base + 300]
         got = probe.eval_many(sh.w, [c[0] for c in chunk])
@@ -322,6 +377,10 @@ def run(sh):
             if k >= 8:
                 cases.append(gen_nary_extremum(rng))
                 sh.count("nary_min_max_cases")
+                pc = gen_compound_pair(rng)
+                if pc is not None:
+                    cases.append(pc)
+                    sh.count("compound_pair_cases")
             elif k >= 5:
                 cases.append(gen_compound(rng))
                 sh.count("compound_quantity_cases")
